@@ -4,8 +4,8 @@ specs/Sse.tla (poll/drain model of QueueStream + Response::send; WHATWG event-st
 model FrameImpl, wanted framing FrameWanted), MC_Sse (framing oracle against itself and against the encoder model),
 SseGen (schedules; message lists), Trace_Sse (verdict per observation; every logged step of the real run is stepped
 through the Sse actions), harness/src/sse.rs (scripted producer -> DataStream::new -> real Response::send, polled by hand)."""
-import hashlib, json, random
-from vlib import finish, standard_pipeline, standard_replay, log
+import concurrent.futures, copy, hashlib, json, os, random
+from vlib import finish, standard_replay, log, ToolError
 
 RULE = ("TLC enumerates (sched) every script of pushes/yields up to MaxScript steps x every placement of the wake-up of each "
         "yield and of spurious wake-ups between the steps of the code, up to termination, and (frame) every message of <= MaxTok "
@@ -86,17 +86,94 @@ def pair(ctx, scns):
     return out
 
 
+TRACE_OBS_FIELDS = ("kind", "where", "events", "toks", "te", "cl", "ct", "dechunk", "trailing", "utf8", "stalled", "finished")
+
+
+def project(o):
+    """what Trace_Sse reads of an observation line (the rest — concrete texts, counters, the schedule as generated —
+    stays in observations.ndjson for the reader and for replay files)"""
+    return {"id": o["id"], "scn": {"script": o["scn"].get("script", []), "msgs": o["scn"].get("msgs", [])},
+            "obs": {k: o["obs"][k] for k in TRACE_OBS_FIELDS if k in o["obs"]}}
+
+
+def validate_parallel(ctx, obs, chunk, par):
+    """Trace_Sse over the observations, `par` TLC processes (one worker each) side by side; every line gets a verdict."""
+    parts = [obs[c:c + chunk] for c in range(0, len(obs), chunk)]
+    subs, errs = [], []
+
+    def work(n, part):
+        sub = copy.copy(ctx)
+        sub.states, sub.transitions, sub.tlc_runs, sub.traces = 0, 0, [], 0
+        subs.append((n, sub))
+        try:
+            tp = ctx.write_ndjson("trace-%d.ndjson" % n, [project(o) for o in part])
+            sub.out = sub.validate("Trace_Sse", "Trace_Sse.cfg", tp, len(part), name="trace-Sse-%d" % n, timeout=1800, heap="3g")
+            os.remove(tp)
+        except Exception as e:          # re-raised in the main thread
+            errs.append(e)
+
+    with concurrent.futures.ThreadPoolExecutor(max_workers=par) as ex:
+        list(ex.map(lambda a: work(*a), enumerate(parts)))
+    if errs:
+        raise errs[0]
+    verdicts = {}
+    for n, sub in sorted(subs, key=lambda x: x[0]):
+        ctx.states += sub.states
+        ctx.transitions += sub.transitions
+        ctx.tlc_runs.extend(sub.tlc_runs)
+        for r in sub.out.lines:
+            if r.get("t") == "VERDICT":
+                verdicts.setdefault(r["id"], []).append(r)
+    return verdicts
+
+
 def pipeline(ctx):
     q = ctx.quick
-    mc = [("Sse", "MC_Sse.cfg" if q else "MC_Sse_deep.cfg", dict(workers=8, coverage=not q, timeout=900)),
-          ("Sse", "MC_Sse_nowaker.cfg", dict(workers=2, expect_violation=True)),
-          ("Sse", "MC_Sse_nodrain.cfg", dict(workers=2, expect_violation=True)),
-          ("MC_Sse", "MC_Sse_frame.cfg" if q else "MC_Sse_frame_deep.cfg", dict(workers=8, timeout=900))]
-    gen = [("SseGen", "Gen_Sse_sched.cfg" if q else "Gen_Sse_sched_deep.cfg", dict(workers=4, timeout=900)),
-           ("SseGen", "Gen_Sse_frame.cfg" if q else "Gen_Sse_frame_deep.cfg", dict(workers=4, timeout=900))]
-    obs, verdicts = standard_pipeline(ctx, sub="sse", mc=mc, gen=gen, trace=("Trace_Sse", "Trace_Sse.cfg"),
-                                      post_gen=lambda s: pair(ctx, s), random_n=2500 if q else 40000,
-                                      nontrivial=nontrivial, jobs=12, chunk=20000, trace_timeout=1800)
+    ctx.build_harness()
+    # (a)+(b): the design satisfies the property within the constants; the mutated designs do not (non-vacuity)
+    ctx.tlc("Sse", "MC_Sse.cfg" if q else "MC_Sse_deep.cfg", workers=8, coverage=not q, timeout=900)
+    ctx.tlc("Sse", "MC_Sse_nowaker.cfg", workers=1, expect_violation=True)
+    ctx.tlc("Sse", "MC_Sse_nodrain.cfg", workers=1, expect_violation=True)
+    ctx.tlc("MC_Sse", "MC_Sse_frame.cfg" if q else "MC_Sse_frame_deep.cfg", workers=8, timeout=900)
+    # scenarios
+    scns = []
+    for cfg in (("Gen_Sse_sched.cfg", "Gen_Sse_frame.cfg") if q else ("Gen_Sse_sched_deep.cfg", "Gen_Sse_frame_deep.cfg")):
+        g = ctx.tlc("SseGen", cfg, workers=4, timeout=900)
+        if not g.lines:
+            raise ToolError("SseGen/%s generated no scenario" % cfg)
+        scns.extend(g.lines)
+    scns = pair(ctx, scns)
+    n_tlc = len(scns)
+    rp = ctx.path("random.ndjson")
+    ctx.vh_gen("sse", rp, 2500 if q else 30000)
+    for l in open(rp):
+        d = json.loads(l); d["random"] = 1
+        scns.append(d)
+    for n, d in enumerate(scns):
+        d["id"] = n
+    inp = ctx.write_ndjson("scenarios.ndjson", scns)
+    obs = ctx.vh("sse", inp, ctx.path("observations.ndjson"), jobs=12, timeout_ms=10000)
+    ctx.evaluations += len(obs)
+    ctx.extra["scenarios_from_tlc"] = n_tlc
+    ctx.extra["scenarios_random"] = len(scns) - n_tlc
+    for o in obs:
+        k = nontrivial(o)
+        if k:
+            ctx.nontrivial.add(k)
+    for o in obs[:: max(1, len(obs) // 5)][:5]:
+        ctx.sample(o)
+    verdicts = validate_parallel(ctx, obs, chunk=5000 if q else 8000, par=3 if q else 4)
+    ctx.traces = len(obs)
+    nbad = 0
+    for o in obs:
+        vs = verdicts.get(o["id"])
+        if not vs:
+            raise ToolError("Trace_Sse produced no verdict for line id=%s: %s" % (o["id"], json.dumps(o)[:400]))
+        if any(v["ok"] for v in vs):
+            continue
+        nbad += 1
+        ctx.violation(vs[0]["sig"], json.dumps({"scn": o["scn"], "obs": o["obs"]})[:600], o)
+    log("[judge] %d observation(s) judged by Trace_Sse: %d outside the property" % (len(obs), nbad))
     ctx.extra["nonvacuity"] = ("FORWARD_WAKER=FALSE violates Terminates; READY_DRAINS=FALSE violates DoneInv "
                                "(both counterexamples found by TLC in this run)")
     drift = fdrift = stuck = 0
